@@ -21,7 +21,7 @@ Proof.
   { inversion H; subst. right; left. auto. }
   right; right.
   destruct (swrite_from s _ idx l); [|discriminate].
-  destruct (N.ltb (slen s + lenN l) (scap s)).
+  destruct (N.ltb (slen s + lenN l) (slimit s)).
   - destruct (swr s a (slen s + lenN l) 0); [|discriminate]. inversion H; subst. cbn. repeat split; auto.
   - inversion H; subst. cbn. repeat split; auto.
 Qed.
@@ -85,16 +85,15 @@ Lemma str_retain_witness :
   str_run (str_new FPoly 1) [SPush 97; SRetain [97]; SBytes] = [OUnit; OUnit; OL []] /\
   sstr_run false (sstr_new FPoly 1) [SPush 97; SRetain [97]; SBytes] = [OUnit; OUnit; OL [97]].
 Proof. split; reflexivity. Qed.
-(* (b) zero-length removal on a full StaticString panics *)
-Lemma str_static_zero_len_witness :
-  str_run (str_new FStatic 1) [SPush 97; SStripPrefix []] = [OUnit; OP] /\
-  sstr_run false (sstr_new FStatic 1) [SPush 97; SStripPrefix []] = [OUnit; OB true].
-Proof. split; reflexivity. Qed.
-(* (c) no NUL terminator: fresh RelocatableString, PolymorphicString filled to capacity *)
-Lemma str_nul_witness :
-  str_run (str_new FReloc 1) [SNul] = [ON POISON] /\
-  str_run (str_new FPoly 1) [SPush 97; SNul] = [OUnit; ON POISON] /\
-  sstr_run false (sstr_new FPoly 1) [SPush 97; SNul] = [OUnit; ON 0].
+(* regression histories: the former deviations (fixed in /repo by 8cf1846, b417f55) *)
+Lemma str_regression_zero_len :
+  str_run (str_new FStatic 1) [SPush 97; SStripPrefix []; SStripSuffix []; SRemoveRange 1 0; SBytes] =
+  [OUnit; OB true; OB true; OB true; OL [97]].
+Proof. reflexivity. Qed.
+Lemma str_regression_nul :
+  str_run (str_new FReloc 1) [SNul] = [ON 0] /\
+  str_run (str_new FPoly 1) [SPush 97; SNul] = [OUnit; ON 0] /\
+  str_run (str_new FReloc 1) [SPush 97; SNul] = [OUnit; ON 0].
 Proof. repeat split; reflexivity. Qed.
 
 Theorem str_refines_refuted : ~ str_refines_full.
